@@ -1,8 +1,9 @@
 -------------------------- MODULE TraceDumpRestore --------------------------
 (* C->M record validation for C46: every record is one REAL dump + restore (cmd/shardb dump):
      in  = {n, cuts, corrupt, ignore, eofdata}   (cuts = unit boundaries at which the real reader stopped)
-     out = {res, restored, count, fail}          (restored = stream indices of the dumped objects found,
-                                                  byte-identical, in the destination shard)
+     out = {res, restored, count, fail, extra}   (restored = stream indices of the dumped objects found,
+                                                  byte-identical, in the destination shard; extra = number
+                                                  of other / altered objects found there)
    The model is run on the same input (hidden steps) and must end with the same output; where the model of
    the code as it is stops predicting ("garbage": framing lost after a short read) any output is accepted.
    A real output different from what C46 demands is printed (PROPFAIL) with the history class. *)
@@ -16,13 +17,13 @@ OutOf(c) == [res |-> c.out.res, restored |-> SetOf(c.out.restored), count |-> c.
 
 TraceInit == l = 1 /\ Start(InOf(Cases[1]))
 Check(c) == /\ c.in.n = NRec
-            /\ (res # "garbage" => Got = OutOf(c))
-            /\ (OutOf(c) # Want => PrintT(<<"PROPFAIL", l, IF KF_H4 THEN "h4" ELSE "none">>))
+            /\ (res # "garbage" => Got = OutOf(c) /\ c.out.extra = 0)
+            /\ ((OutOf(c) # Want \/ c.out.extra # 0) => PrintT(<<"PROPFAIL", l, IF KF_H4 THEN "h4" ELSE "none">>))
 TraceNext ==
   /\ l <= Len(Cases)
   /\ IF phase = "end"
      THEN /\ Check(Cases[l]) /\ l' = l + 1
-          /\ IF l < Len(Cases) THEN Start(InOf(Cases[l + 1]))'
+          /\ IF l < Len(Cases) THEN StartNext(InOf(Cases[l + 1]))
              ELSE UNCHANGED vars
      ELSE Next /\ UNCHANGED l
 TraceSpec == TraceInit /\ [][TraceNext]_tvars
